@@ -225,6 +225,17 @@ impl Real {
     }
     pub fn build_any(&self, b: B) -> String { if let Real::Pg(p) = self { return p.to_string(); } let q = crate::sq::sb(b); each_ddl!(self, s => s.build_any(&*q)) }
     pub fn debug(&self) -> String { if let Real::Pg(p) = self { return p.debug(); } each_ddl!(self, s => format!("{s:?}")) }
+    /// the same table statement wrapped in the `TableStatement` enum: its three entry points (None for the other statement kinds)
+    pub fn via_table_statement(&self, b: B) -> Option<[String; 3]> {
+        let t = match self { Real::Create(s) => TableStatement::Create(s.clone()), Real::Alter(s) => TableStatement::Alter(s.clone()), Real::Drop(s) => TableStatement::Drop(s.clone()),
+            Real::Rename(s) => TableStatement::Rename(s.clone()), Real::Truncate(s) => TableStatement::Truncate(s.clone()), _ => return None };
+        let q = crate::sq::sb(b);
+        Some(match b {
+            B::Mysql => [t.build(MysqlQueryBuilder), t.to_string(MysqlQueryBuilder), t.build_any(&*q)],
+            B::Postgres => [t.build(PostgresQueryBuilder), t.to_string(PostgresQueryBuilder), t.build_any(&*q)],
+            B::Sqlite => [t.build(SqliteQueryBuilder), t.to_string(SqliteQueryBuilder), t.build_any(&*q)],
+        })
+    }
 }
 
 impl Ddl {
@@ -548,6 +559,11 @@ pub fn run_stream(ctx: &mut crate::Ctx, backends: &[B], n: usize) {
         for (name, got) in [("to_string", catch(|| real.to_string(b))), ("build_any", catch(|| real.build_any(b))), ("build (again)", catch(|| real.build(b)))] {
             if got.as_deref() != Some(r.as_str()) {
                 ctx.oracle_fail("a schema rendering entry point disagrees with build()", serde_json::json!({"backend": b.name(), "recipe": recipe, "entry": name, "build": r, "got": got}));
+            }
+        }
+        if let Some(Some(three)) = catch(|| real.via_table_statement(b)) {
+            for (name, got) in ["TableStatement::build", "TableStatement::to_string", "TableStatement::build_any"].iter().zip(three.iter()) {
+                if got != &r { ctx.oracle_fail("a schema rendering entry point disagrees with build()", serde_json::json!({"backend": b.name(), "recipe": recipe, "entry": name, "build": r, "got": got})); }
             }
         }
         if real.debug() != before { ctx.oracle_fail("rendering modified the schema statement", serde_json::json!({"backend": b.name(), "recipe": recipe})); }
